@@ -216,7 +216,9 @@ theorem process_fresh (g : G) (v : Verifier F G) (e : EncDeal F G) (rnd : Nat) (
     simp only at hvs hresp hna hiff
     simp only [hna, if_false]
     have h1 : ¬ (v.index ≥ a1.vs.length) := by rw [hvs]; simp [newAgg]; exact hidx
-    simp only [addResponse, h1, if_false, hasResponse, hresp, newAgg, List.any_nil, Bool.false_eq_true]
+    have h2 : hasResponse a1 v.index = false := by
+      simp [hasResponse, getResponse, hresp, newAgg, List.getElem?_replicate, hidx]
+    simp only [addResponse, h1, if_false, h2, Bool.false_eq_true]
     refine ⟨_, _, rfl, rfl, rfl, rfl, ?_⟩
     have hiff' : verr = none ↔ Consistent g v.dealer v.vs d := hiff
     rw [← hiff']
